@@ -105,7 +105,7 @@ class Scratch:
             raise RuntimeError("harness compile failed:\n" + cmd + "\n" + o[-6000:])
         return out
 
-    def prog_object(self, inst, src, link_like, keep_globals=(), defines=""):
+    def prog_object(self, inst, src, link_like, keep_globals=(), defines="", objs_exclude=()):
         """Build one *instance* of a program for qsim: compile `src` with main renamed to <inst>_main,
         partially link it with everything the Makefile links the program with, move its writable data
         into sections pd_<inst>* / pb_<inst> (so the harness can snapshot/restore the program's globals)
@@ -114,6 +114,8 @@ class Scratch:
         largs = self.load_args(link_like)
         libs = " ".join(re.findall(r"`cat\s+([^`]+)`", largs.replace("\t", " ")))
         largs = re.sub(r"`[^`]*`", " ", largs)
+        for o in objs_exclude:
+            largs = re.sub(r"(^|\s)%s(\s|$)" % re.escape(o), " ", largs)
         d = self.dir
         sh("./compile -Dmain=%s_main %s %s -o %s_i.o" % (inst, defines, src, inst), cwd=d, check=True)
         sh("ld -r -o %s_p.o %s_i.o %s" % (inst, inst, largs), cwd=d, check=True)
@@ -279,7 +281,20 @@ class Check:
 
     # -- proofs
     def proofs(self, prop_module, drivers=(), extra_modules=()):
-        """build property theorems + drivers; audit. Returns True iff all obligations discharged."""
+        """build property theorems + drivers; audit. Returns True iff all obligations discharged.
+        The translator output (lean/Nq/Gen) and the lake build directory are shared by all checks, so the
+        whole step runs under an exclusive lock: concurrent checks (possibly with different NQ_REPO) cannot
+        see each other's generated files."""
+        import fcntl
+        lockf = open(os.path.join(LEAN, ".buildlock"), "w")
+        fcntl.flock(lockf, fcntl.LOCK_EX)
+        try:
+            return self._proofs(prop_module, drivers, extra_modules)
+        finally:
+            fcntl.flock(lockf, fcntl.LOCK_UN)
+            lockf.close()
+
+    def _proofs(self, prop_module, drivers=(), extra_modules=()):
         names_before = theorem_names(prop_module)
         self.cov["obligations"] = len(names_before)
         # (T) translator: regenerate Nq/Gen/*.lean from the current sources
@@ -501,7 +516,7 @@ def byte_mutations(dis, seed, alphabet, per=400, prefix_variants=("0", "1", "2",
 
 def run_standard(prop, prop_module, driver, harness_src, link_like, objs_exclude, args_quick, args_thorough,
                  rule, correspondence_name, alphabet=b"\r\n.a", assumptions=(), extra_cc="", stdin_prefixes=("0", "1", "2", "3"),
-                 harness_name=None, post=None, builder=None, mutate=None):
+                 harness_name=None, post=None, builder=None, mutate=None, oracle_filter=None):
     """The common shape of a check: proofs + sharded harness|driver + verdict + evidence."""
     c = Check(prop)
     ok = c.proofs(prop_module, drivers=[driver])
@@ -527,6 +542,8 @@ def run_standard(prop, prop_module, driver, harness_src, link_like, objs_exclude
                 cmds += ["%s %s %d %d %d" % (h, args, c.seed, i, NCPU) for i in range(NCPU)]
             outs = run_pipeline(cmds, drv)
             stats, samples, disagree, oracle, errors = parse_driver_output(outs)
+            if oracle_filter:
+                oracle = [o for o in oracle if oracle_filter in o]
 
             def neighbourhood(dis):
                 cases = mutate(dis, c.seed) if mutate else byte_mutations(dis, c.seed, alphabet, prefix_variants=stdin_prefixes)
@@ -536,6 +553,8 @@ def run_standard(prop, prop_module, driver, harness_src, link_like, objs_exclude
                 open(tf, "w").write("\n".join(cases) + "\n")
                 o2 = run_pipeline(["%s - < %s" % (h, tf)], drv)
                 st2, _, _, or2, _ = parse_driver_output(o2)
+                if oracle_filter:
+                    or2 = [o for o in or2 if oracle_filter in o]
                 c.cov["search_cases"] = st2.get("cases", 0)
                 return shortest(or2) if or2 else None
         except Exception as ex:
